@@ -206,3 +206,79 @@ package server
 //@ ensures {C18} !(opt.NX && old(kHas(server, conn.id, newkey))) && err == nil && key != newkey ==> !kHas(server, conn.id, key)
 //@ ensures {C18} !(opt.NX && old(kHas(server, conn.id, newkey))) && err == nil ==> (opt.NX ? intReply(result0, 1) : statusReply(result0, "OK"))
 //@ ensures {C18} old(hasDB(server, conn.id)) ==> forall q iface :: q != iface(key) && q != iface(newkey) ==> sm_dom[&recs(server, conn.id).Map][q] == old(sm_dom[&recs(server, conn.id).Map][q]) && sm_val[&recs(server, conn.id).Map][q] == old(sm_val[&recs(server, conn.id).Map][q])
+
+// ---------------------------------------------------------------- list.go: a list is the sequence list.elements (head first)
+
+//@ func NewList
+//@ assigns nothing
+//@ ensures {C18} result != nil && fresh(result) && len(result.elements) == 0
+
+//@ func (*List).Len
+//@ assigns nothing
+//@ ensures {C18} result == len(list.elements)
+
+//@ func (*List).Index
+//@ assigns nothing
+//@ ensures {C18} result1 <==> (-len(list.elements) <= idx && idx < len(list.elements))
+//@ ensures {C18} result1 && idx >= 0 ==> result0 == list.elements[idx]
+//@ ensures {C18} result1 && idx < 0 ==> result0 == list.elements[len(list.elements) + idx]
+//@ ensures {C18} !result1 ==> result0 == ""
+
+//@ func (*List).RPush
+//@ assigns list.elements, comp:E|Str, alloc
+//@ ensures {C18} result == len(list.elements) && len(list.elements) == old(len(list.elements)) + len(elems)
+//@ ensures {C18} forall i int :: 0 <= i && i < old(len(list.elements)) ==> list.elements[i] == old(list.elements[i])
+//@ ensures {C18} forall i int :: 0 <= i && i < len(elems) ==> list.elements[old(len(list.elements)) + i] == old(elems[i])
+
+//@ func (*List).LPush
+//@ assigns list.elements, comp:E|Str, alloc
+//@ ensures {C18} result == len(list.elements) && len(list.elements) == old(len(list.elements)) + len(elems)
+//@ ensures {C18} forall i int :: 0 <= i && i < len(elems) ==> list.elements[i] == elems[len(elems) - 1 - i]
+//@ ensures {C18} forall i int :: 0 <= i && i < old(len(list.elements)) ==> list.elements[len(elems) + i] == old(list.elements[i])
+//@ loop 0
+//@   invariant -1 <= rangeindex && rangeindex < len(elems) && len(list.elements) == old(len(list.elements)) + rangeindex + 1
+//@   invariant forall i int :: 0 <= i && i <= rangeindex ==> list.elements[i] == elems[rangeindex - i]
+//@   invariant forall i int :: 0 <= i && i < old(len(list.elements)) ==> list.elements[rangeindex + 1 + i] == old(list.elements[i])
+//@   invariant rangeindex >= 0 ==> fresh(list.elements)
+//@   decreases len(elems) - rangeindex
+
+//@ func (*List).LPop
+//@ assigns list.elements
+//@ ensures {C18} result1 <==> count >= 1
+//@ ensures {C18} !result1 ==> result0 == nil && len(list.elements) == old(len(list.elements))
+//@ ensures {C18} result1 ==> len(result0) == (count < old(len(list.elements)) ? count : old(len(list.elements))) && len(list.elements) == old(len(list.elements)) - len(result0)
+//@ ensures {C18} result1 ==> forall i int :: 0 <= i && i < len(result0) ==> result0[i] == old(list.elements[i])
+//@ ensures {C18} result1 ==> arr(list.elements) == old(arr(list.elements)) && off(list.elements) == old(off(list.elements)) + len(result0)
+//@ loop 0
+//@   invariant 0 <= n && n <= count && count <= old(len(list.elements)) && len(elems) == n && fresh(elems)
+//@   invariant len(list.elements) == old(len(list.elements)) - n && arr(list.elements) == old(arr(list.elements)) && off(list.elements) == old(off(list.elements)) + n
+//@   invariant forall i int :: 0 <= i && i < n ==> elems[i] == old(list.elements[i])
+//@   decreases count - n
+
+//@ func (*List).RPop
+//@ assigns list.elements
+//@ ensures {C18} result1 <==> count >= 1
+//@ ensures {C18} !result1 ==> result0 == nil && len(list.elements) == old(len(list.elements))
+//@ ensures {C18} result1 ==> len(result0) == (count < old(len(list.elements)) ? count : old(len(list.elements))) && len(list.elements) == old(len(list.elements)) - len(result0)
+//@ ensures {C18} result1 ==> forall i int :: 0 <= i && i < len(result0) ==> result0[i] == old(list.elements[len(list.elements) - 1 - i])
+//@ ensures {C18} result1 ==> arr(list.elements) == old(arr(list.elements)) && off(list.elements) == old(off(list.elements))
+//@ loop 0
+//@   invariant 0 <= n && n <= count && count <= old(len(list.elements)) && len(elems) == n && fresh(elems)
+//@   invariant len(list.elements) == old(len(list.elements)) - n && arr(list.elements) == old(arr(list.elements)) && off(list.elements) == old(off(list.elements))
+//@   invariant forall i int :: 0 <= i && i < n ==> elems[i] == old(list.elements[len(list.elements) - 1 - i])
+//@   decreases count - n
+
+//@ spec func rangeLo(n int, start int) int = (start < 0 ? (n + start < 0 ? 0 : n + start) : start)
+//@ spec func rangeHi(n int, stop int) int = (stop < 0 ? n + stop : (stop > n - 1 ? n - 1 : stop))
+
+//@ func (*List).Range
+//@ assigns nothing
+//@ ensures {C18} result != nil
+//@ ensures {C18} rangeLo(len(list.elements), start) > rangeHi(len(list.elements), stop) ==> len(result) == 0
+//@ ensures {C18} rangeLo(len(list.elements), start) <= rangeHi(len(list.elements), stop) ==> len(result) == rangeHi(len(list.elements), stop) - rangeLo(len(list.elements), start) + 1
+//@ ensures {C18} forall i int :: 0 <= i && i < len(result) ==> result[i] == list.elements[rangeLo(len(list.elements), start) + i]
+//@ loop 0
+//@   invariant start == rangeLo(len(list.elements), old(start)) && stop == rangeHi(len(list.elements), old(stop)) && start <= n && 0 <= start && stop < len(list.elements)
+//@   invariant (start <= stop ==> n <= stop + 1 && len(elems) == n - start) && (start > stop ==> len(elems) == 0) && fresh(elems)
+//@   invariant forall i int :: 0 <= i && i < len(elems) ==> elems[i] == list.elements[start + i]
+//@   decreases stop - n + 1
